@@ -571,7 +571,24 @@ def X13(ctx: Ctx, mode: str = 'access') -> RuleResult:
             continue
         n += 1
         if mode == 'asserts':
+            from .terms import eval_bool, implied_literals, guards_consistent
             for o in outs:
+                # an assertion that the conditions of its own path refute (a case fell through to the "cannot happen" line)
+                if o.asserts:
+                    def leaves(t_):
+                        if isinstance(t_, Op) and t_.op in ('and', 'or', 'not'):
+                            for a_ in t_.args:
+                                yield from leaves(a_)
+                        else:
+                            yield t_
+                    for at in o.asserts:
+                        atoms = set(leaves(at))
+                        rel = tuple((g, p_) for g, p_ in o.guards if atoms & set(leaves(g)))
+                        if not rel or not guards_consistent(rel, 14):
+                            continue
+                        known = {t_: v_ for t_, v_ in implied_literals(rel, 14)}
+                        if known and eval_bool(at, known) is False:
+                            hits.setdefault((fi.qualname, 'refuted ' + str(at)[:60]), (['<any>'], f'{fi.module.relpath}:{o.lineno}'))
                 for at in o.asserts:
                     # the tests made before the assertion was reached
                     depth = max([d_ for d_ in ev.assert_depth.get((fi.key, at), []) if d_ <= len(o.guards)] or [len(o.guards)])
@@ -608,7 +625,9 @@ def X13(ctx: Ctx, mode: str = 'access') -> RuleResult:
             for t in list(o.effects) + ([o.value] if o.value is not None and o.kind != 'raise' else []) + list(o.asserts):
                 check(t, facts, fi, o.lineno)
     for (fn, acc), (bad, where) in sorted(hits.items()):
-        if mode == 'asserts':
+        if mode == 'asserts' and acc.startswith('refuted '):
+            r.fail(f'{fn}:assert {acc}', f'{fn} reaches the assertion {acc[8:]} on a path whose own conditions make it false: AssertionError instead of a result', where)
+        elif mode == 'asserts':
             r.fail(f'{fn}:assert {acc}', f'{fn} asserts {acc} on a path whose tests still allow {" / ".join(bad)}: AssertionError on a well-formed input of that kind', where)
         else:
             r.fail(f'{fn}:{acc}', f'{fn} reads {acc} where the value can still be a {" / ".join(bad)} (no test on the way rules these out): AttributeError on a well-formed input of that kind', where)
